@@ -18,6 +18,12 @@ PROFILES = {
     'shipped_sync': lambda rnd: sp.gen_shipped(rnd, dyn='syn'),
     'shipped_sto': lambda rnd: sp.gen_shipped(rnd, dyn='sto'),
     'queue': lambda rnd: sp.gen_script_queue(rnd),
+    'composed': lambda rnd: sp.gen_composed(rnd),
+    'deco': lambda rnd: sp.gen_deco(rnd),
+    'adddel': lambda rnd: sp.gen_adddel(rnd),
+    'adddel_ok': lambda rnd: sp.gen_adddel(rnd, combo=rnd.choice(['alone', 'inherit', 'full'])),
+    'adddel_seq': lambda rnd: sp.gen_adddel(rnd, combo='seq'),
+    'seqtree': lambda rnd: sp.gen_seqtree(rnd),
     'monitored': lambda rnd: sp.gen_monitored(rnd),
     'fixrec_sto': lambda rnd: sp.gen_shipped(rnd, classes=['SIR_FixedRecovery', 'SIS_FixedRecovery'], dyn='sto'),
     'rates_sto': lambda rnd: sp.gen_rates(rnd, 'sto'),
